@@ -51,6 +51,7 @@ theorem inv_step (s s' : State) (l : Label) (h : Inv s) (hs : step s l = some s'
   | loopStop l => exact inv_loopStop s s' l h hs
   | shutdownBegin l => exact inv_shutdownBegin s s' l h hs
   | loopClose l => exact inv_loopClose s s' l h hs
+  | loopResume l => exact inv_loopResume s s' l h hs
 
 theorem inv_reachable (ls : List Label) : ∀ (s s' : State), Inv s → accepts s ls = some s' → Inv s' := by
   induction ls with
@@ -98,11 +99,9 @@ theorem C01_takeover_only_from_dead (ls : List Label) (s : State) (hs : accepts 
     (c d : CId) (oc : (s.cs c).pc.owner = true) (o1 : (s.cs c).orphan = false)
     (hd : (s.cs d).pc = .put) (hk : (s.cs c).key = (s.cs d).key) : False := by
   have h := inv_reachable ls init s inv_init hs
-  have m1 := h.own c oc o1
-  have r1 := h.ownRun c oc o1
-  have := h.putDead d hd (s.cs c).loop (s.cs c).ev (by rw [← hk]; exact m1)
-  rw [r1] at this
-  simp [LoopSt.wasStopped] at this
+  have := h.putDead d hd c oc hk
+  rw [o1] at this
+  cases this
 
 /-- Once a result is in the (retaining) mapping every caller that probes returns exactly it,
 without invoking anything. -/
